@@ -551,6 +551,115 @@ func VH18c_repeat() {
 	sock.Close()
 }
 
+// VH18e_send_repeat: R send deadlines in a row expire against a stalled peer (WRITEQ-LEN 1), each at its own instant
+// and none before; then the peer reads again: a Send completes, what the peer gets are messages that were sent (each
+// at most once), nothing of a timed-out message arrives later, the connection was never dropped, and a normal
+// exchange still works (REQ gets its reply, REP answers the next request).
+func VH18e_send_repeat() {
+	protos := []string{"pair", "xpair", "pair1", "xpair1", "push", "xpush", "req", "xreq", "rep", "xrep", "respondent", "xrespondent"}
+	proto := protos[verif.Choice("proto", len(protos))]
+	R := verif.Param("R", 3)
+	lab := "C18/" + proto + "/send-repeat"
+	sock := vp.New(proto)
+	var ep endpoint = sock
+	if verif.Choice("api", 2) == 1 {
+		c, cerr := sock.OpenContext()
+		if cerr != nil {
+			verif.Assume(false)
+		}
+		ep = c
+		lab += "/context"
+	}
+	D := time.Second
+	verif.Assert(ep.SetOption(mangos.OptionSendDeadline, D) == nil, lab+"/set-deadline")
+	sock.SetOption(mangos.OptionWriteQLen, 1)
+	side := vt.Listen(sock, "a")
+	peer := side.Peer("p")
+	learnRoute(proto, sock, peer)
+	answering := proto == "rep" || proto == "respondent"
+	peer.SendMode = vt.SendBlock
+	mk := func(tag byte) *mangos.Message {
+		m := newMsg(proto)
+		m.Body[1] = tag
+		return m
+	}
+	ask := func(n byte) bool {
+		if !answering {
+			return true
+		}
+		peer.Deliver([]byte{0x80, 0, 0, n, 'q'})
+		verif.Quiesce()
+		_, rerr := ep.RecvMsg()
+		return rerr == nil
+	}
+	timeouts := 0
+	var timedOut []byte
+	for i := 0; i < 8 && timeouts < R; i++ {
+		if !ask(byte(i + 1)) {
+			verif.Fail(lab + "/request-not-received")
+			return
+		}
+		tag := byte('a' + i)
+		m := mk(tag)
+		t0 := verif.Now()
+		var err error
+		g := verif.Go("send", func() { err = ep.SendMsg(m) })
+		verif.Quiesce()
+		if g.Done() {
+			verif.Assert(err == nil, lab+"/send-error-before-the-queues-are-full")
+			continue
+		}
+		verif.RunClockTo(t0 + D - 1)
+		verif.Assert(!g.Done(), lab+"/send-returns-before-its-deadline")
+		verif.RunClockTo(t0 + D)
+		verif.Assert(g.Done(), lab+"/send-hangs-beyond-its-deadline")
+		if !g.Done() {
+			return
+		}
+		verif.Assert(err == mangos.ErrSendTimeout, lab+"/send-deadline-error")
+		verif.Assert(len(m.Body) == 2 && m.Body[1] == tag, lab+"/timed-out-message-changed")
+		timedOut = append(timedOut, tag)
+		timeouts++
+		verif.RunClockTo(verif.Now() + time.Duration(timeouts)*300*time.Millisecond)
+	}
+	if timeouts < R {
+		verif.Assume(false) // this pattern never blocks a sender (covered elsewhere)
+	}
+	verif.Reach("send-timeouts-in-a-row")
+	// the peer reads again
+	peer.SendMode = vt.SendOK
+	for i := 0; i < 8; i++ {
+		peer.Release()
+	}
+	verif.Quiesce()
+	verif.Assert(!peer.Closed, lab+"/peer-disconnected-by-timeouts")
+	if !ask(200) {
+		verif.Fail(lab + "/request-not-received-after-timeouts")
+		return
+	}
+	last := mk('Z')
+	var lerr error
+	lg := verif.Go("send-after", func() { lerr = ep.SendMsg(last) })
+	verif.Quiesce()
+	verif.Assert(lg.Done() && lerr == nil, lab+"/send-fails-although-the-peer-reads-again")
+	seen := map[byte]int{}
+	for _, r := range peer.Sent {
+		if len(r.B) == 2 && r.B[0] == 'h' {
+			seen[r.B[1]]++
+		}
+	}
+	for tag, n := range seen {
+		verif.Assert(n == 1, lab+"/message-on-the-wire-twice")
+		for _, t := range timedOut {
+			// a message whose Send reported a timeout stays with the caller: it must not arrive later
+			verif.Assert(tag != t, lab+"/timed-out-message-arrived-later")
+		}
+	}
+	verif.Assert(seen['Z'] == 1, lab+"/message-sent-after-the-timeouts-did-not-arrive")
+	verif.Reach("send-repeat-checked")
+	sock.Close()
+}
+
 // VH12g_write_fault: on a socket of any pattern that can send, the connection a
 // message is written to fails that write (raw reset error or ErrClosed) while
 // its read side stays healthy. The library gives that connection up -- closes
